@@ -171,6 +171,10 @@ fn add_stats(a: &mut Acc, s: &CaseStats) {
     add("excluded_other", s.excluded_other as u64);
     add("async_batches", s.async_batches as u64);
     add("net_overflow", s.net_overflow as u64);
+    add("liveness_rounds_to_converge", s.liveness_rounds as u64);
+    add("handoffs_completed", s.handoffs_completed as u64);
+    add("structured_scenario_cases", s.mode1 as u64);
+    add("liveness_converged_after_bound", s.liveness_slow as u64);
 }
 
 fn hash_raw(raw: &RawCase) -> u64 {
@@ -214,6 +218,27 @@ pub type Evaluator = dyn Fn(&Case, bool) -> RunOutcome + Send + Sync;
 pub fn default_eval(spec: &Spec) -> Box<Evaluator> {
     let monitors = spec.monitors;
     let options = spec.options;
+    if spec.id == "C16" {
+        return Box::new(move |case: &Case, trace: bool| {
+            if case.scenario.mode == 1 {
+                World::run_lockstep(case, Mon::new(monitors), options, trace)
+            } else {
+                World::run(case, Mon::new(monitors), options, trace)
+            }
+        });
+    }
+    if spec.id == "C17" {
+        return Box::new(move |case: &Case, trace: bool| {
+            if case.scenario.mode == 1 {
+                World::run_handoff(case, Mon::new(monitors), options, trace)
+            } else {
+                World::run(case, Mon::new(monitors), options, trace)
+            }
+        });
+    }
+    if spec.id == "C10" {
+        return Box::new(move |case: &Case, trace: bool| World::run_liveness(case, Mon::new(monitors), options, trace));
+    }
     Box::new(move |case: &Case, trace: bool| World::run(case, Mon::new(monitors), options, trace))
 }
 
